@@ -161,6 +161,11 @@ fn build_snapshot(dir: &Path, shard_seed: u64, enc: Enc, gs: usize, flavor: Flav
             .unwrap_or(0);
         rows.insert(t.to_string(), n);
     }
+    if enc == Enc::Json {
+        // the JSON reader derives a `ContractsInfo` table (one row per contract,
+        // zero salt) from the contract list of the state config
+        rows.insert("ContractsInfo".to_string(), model.contracts.len());
+    }
     let snap_dir = dir.join("snapshot");
     let metadata = snapio::export(&rt, &src, &snap_dir, enc, gs).map_err(|e| format!("export: {e:#}"))?;
     let config = snapio::config_for(metadata, gs).map_err(|e| format!("open snapshot: {e:#}"))?;
@@ -232,7 +237,6 @@ struct Outcome {
     completed: bool,
     attempts: Vec<AttemptRec>,
     log: Vec<CommitRec>,
-    shadow: BTreeMap<(u8, u32, Vec<u8>), Vec<u8>>,
     on_dump: DbDump,
     off_dump: DbDump,
 }
@@ -323,12 +327,15 @@ fn run_scenario(snap: &Snap, faults: &[Fault], backend: Backend, dir: &Path, sab
             from_dumps.len()
         ));
     }
+    let mut on_dump = on_dump;
+    let mut off_dump = off_dump;
+    dump::canonicalize_metadata(&mut on_dump);
+    dump::canonicalize_metadata(&mut off_dump);
     target.db.shutdown();
     Ok(Outcome {
         completed,
         attempts,
         log,
-        shadow,
         on_dump,
         off_dump,
     })
@@ -503,12 +510,6 @@ fn judge(j: &Judge, snap: &Snap, expected: &BTreeMap<String, usize>, baseline: O
                 ),
             );
         }
-    }
-    if base.shadow != sc.shadow && dump::diff_db(&base.on_dump, &sc.on_dump).is_empty() && dump::diff_db(&base.off_dump, &sc.off_dump).is_empty() {
-        j.violation(
-            format!("final_state_differs fault={kind} db=raw"),
-            format!("replayed commit content differs from the uninterrupted import although the column dumps agree; {ctx}"),
-        );
     }
 }
 
@@ -735,7 +736,7 @@ fn run_shard(report: &Report, args: &Args, shard: usize, shard_seed: u64, selfte
             plans.push(vec![Fault::FailCommit(k)]);
         }
         // in-group failure points: storage reads made while groups are processed
-        let read_budget = if thorough { 2000 } else { 400 };
+        let read_budget = if thorough { 2000 } else { 200 };
         let stride = if deterministic_order { (r_total / read_budget).max(1) } else { (r_total / 60).max(1) };
         let mut r = 0;
         while r < r_total {
@@ -898,9 +899,29 @@ fn run_shard(report: &Report, args: &Args, shard: usize, shard_seed: u64, selfte
                     "resumed_with_different_state"
                 };
                 report.count(&format!("probe.{name}.{outcome}"));
+                if outcome != "resumed_identical" && args.extra.get("judge-probes").map(|v| v == "1").unwrap_or(false) {
+                    // opt-in only: fault points outside the property's quantifier
+                    report.violation(
+                        format!("out_of_model_probe {name} {outcome}"),
+                        describe_attempts(&sc),
+                        replay_of(&faults),
+                    );
+                }
                 if outcome != "resumed_identical" {
+                    let tables: Vec<String> = dump::diff_db(&base.on_dump, &sc.on_dump)
+                        .iter()
+                        .map(|(t, d)| format!("on_chain.{t}({})", d.kinds()))
+                        .chain(
+                            dump::diff_db(&base.off_dump, &sc.off_dump)
+                                .iter()
+                                .map(|(t, d)| format!("off_chain.{t}({})", d.kinds())),
+                        )
+                        .collect();
+                    for t in &tables {
+                        report.count(&format!("probe.{name}.differs.{}", t.split('(').next().unwrap_or("")));
+                    }
                     report.note(format!(
-                        "probe (not judged) {name}: {outcome}; {}",
+                        "probe (not judged) {name}: {outcome}; differing tables {tables:?}; {}",
                         describe_attempts(&sc)
                     ));
                 }
@@ -956,7 +977,7 @@ pub fn run(args: &Args, report: &Report) -> (String, Vec<&'static str>, bool) {
     }
 
     let shards = args.by_tier(16usize, 48usize);
-    let deadline = Duration::from_secs(args.by_tier(90, 900));
+    let deadline = Duration::from_secs(args.by_tier(100, 900));
     {
         let report2 = report.clone();
         let args2 = args.clone();
@@ -971,12 +992,12 @@ pub fn run(args: &Args, report: &Report) -> (String, Vec<&'static str>, bool) {
         report.require("snapshots.all_fault_points_covered", n);
         report.require("snapshots.flavor.Parallel", n / 8);
         report.require("snapshots.enc.json", n / 8);
-        report.require("faults.hit.cancel", n * 20);
-        report.require("faults.hit.commit_failure", n * 20);
-        report.require("faults.hit.read_failure", n * 10);
-        report.require("scenarios.interrupted_midway", n * 30);
-        report.require("baseline.migrations_with_2plus_groups", n * 4);
-        report.require("baseline.migrations_with_10plus_groups", n / 8);
+        report.require("faults.hit.cancel", n * 30);
+        report.require("faults.hit.commit_failure", n * 30);
+        report.require("faults.hit.read_failure", n * 20);
+        report.require("scenarios.interrupted_midway", n * 100);
+        report.require("baseline.migrations_with_2plus_groups", n * 6);
+        report.require("baseline.migrations_with_10plus_groups", n / 4);
         exhaustive = report.get("snapshots.all_fault_points_covered") == n
             && report.get("enumeration.truncated") == 0
             && report.get("faults.executed") == report.get("faults.planned");
